@@ -612,6 +612,77 @@ func runC18(p *an.Prog, r *an.Run, tier string) {
 		r.Undec("fresh-reply", "pool.RemotePool", token.NoPos, "pool.RemotePool not found")
 	}
 
+	// ... and the same on the node's side: every RPC reply of the node adapters (admin_peers, parity_netPeers, ...) is
+	// decoded into a fresh local. encoding/json reuses the elements of a non-empty target slice and leaves the members
+	// a JSON object omits alone: a peer entry without "enode" decoded over last round's entry keeps that peer's key, and
+	// the agent un-trusts and disconnects a peer that is long gone instead of the one that is there
+	{
+		var fb []string
+		nDec := 0
+		for _, fn := range p.Repo {
+			top := fn
+			for top.Parent() != nil {
+				top = top.Parent()
+			}
+			if top.Pkg == nil || !strings.HasSuffix(top.Pkg.Pkg.Path(), "/ethnode") || p.IsTestFunc(fn) {
+				continue
+			}
+			for _, c := range an.Calls(fn, false) {
+				f := an.CallObj(c)
+				if f == nil || (f.Name() != "CallContext" && f.Name() != "Call") || an.RecvNamed(f) == nil || an.RecvNamed(f).Obj().Pkg() == nil || !strings.HasSuffix(an.RecvNamed(f).Obj().Pkg().Path(), "go-ethereum/rpc") {
+					continue
+				}
+				a := methodArgs(c)
+				idx := 1
+				if f.Name() == "Call" {
+					idx = 0
+				}
+				if len(a) <= idx {
+					continue
+				}
+				v := a[idx]
+				if mi, ok := v.(*ssa.MakeInterface); ok {
+					v = mi.X
+				}
+				if cst, ok := v.(*ssa.Const); ok && cst.IsNil() {
+					continue
+				}
+				nDec++
+				root, _ := an.RootPath(v)
+				al, ok := root.(*ssa.Alloc)
+				if !ok || al.Parent() != fn {
+					// a result parameter of a small generic helper is judged at the helper's call sites; anything else outlives the call
+					if _, isPrm := root.(*ssa.Parameter); isPrm {
+						continue
+					}
+					fb = append(fb, an.FuncName(fn)+" decodes the node's reply into a value that outlives the call ("+p.Pos(c.Pos())+")")
+					continue
+				}
+				for _, ref := range *al.Referrers() {
+					if st, ok := ref.(*ssa.Store); ok && st.Addr == ssa.Value(al) {
+						if _, isConst := st.Val.(*ssa.Const); isConst {
+							continue
+						}
+						// a freshly made value (make, composite literal) is as good as the zero value; anything that
+						// comes from a field, a parameter or a global carries an earlier reply
+						longLived := p.Derives(0, st.Val).Has(func(x ssa.Value) bool {
+							switch x.(type) {
+							case *ssa.FieldAddr, *ssa.Field, *ssa.Parameter, *ssa.Global, *ssa.FreeVar:
+								return true
+							}
+							return false
+						})
+						if longLived {
+							fb = append(fb, an.FuncName(fn)+" decodes the node's reply into a target pre-filled at "+p.Pos(st.Pos())+" ("+p.Pos(c.Pos())+"): members the reply omits keep what the previous reply left there")
+						}
+					}
+				}
+			}
+		}
+		r.Floor("node-reply-decodes", nDec, 4)
+		r.Check(len(fb) == 0, "fresh-reply", "ethnode adapters", token.NoPos, "each reply of the node is decoded into a fresh value", "%s", strings.Join(dedup(fb), "; "))
+	}
+
 	// ---- shortfall
 	bad = nil
 	var apCall ssa.CallInstruction
